@@ -82,12 +82,13 @@ def pieces(t):
 
 
 def cat(ps):
+    from .values import canon_str
     ps = [p for p in ps if lit(p) != '']
     if not ps:
         return EMPTY
     if len(ps) == 1:
         return ps[0]
-    return z3.Concat(*ps)
+    return canon_str(z3.Concat(*ps))
 
 
 def mark_noslash(ctx, t):
